@@ -302,9 +302,11 @@ Proof.
   assert (Hcov : forallb (fun ib => amem (fst ib) r2u) (i_repos img) = true).
   { revert Hrepos. apply forallb_impl. intros ib _ H. apply andb_true_iff in H. tauto. }
   rewrite Hcov. cbn [negb].
-  set (v2u' := repair_v2u (i_repos img) v2u).
+  set (v2u1 := repair_v2u (i_repos img) v2u).
   set (r2u' := filter (fun iu => amem (fst iu) (i_repos img)) r2u).
-  set (sc := negb (Nat.eqb (length r2u') (length r2u)) || negb (Nat.eqb (length v2u') (length v2u))).
+  set (v2u' := filter (fun vu => version_live (i_repos img) (fst vu)) v2u1).
+  set (sc := negb (Nat.eqb (length r2u') (length r2u)) || negb (Nat.eqb (length v2u1) (length v2u))
+             || negb (Nat.eqb (length v2u') (length v2u1))).
   set (w1 := if sc then [WR2U r2u'; WV2U v2u'] else []).
   set (w2 := if fmt =? 1 then [] else [WFmt 1]).
   set (muts := map _ r2u').
@@ -687,24 +689,7 @@ Proof.
   rewrite forallb_forall in H. rewrite amem_adel_neq by exact Hne. now apply H.
 Qed.
 
-Lemma step_delete_repo m img rid : pinv_facts m img ->
-  let '(m', ws) := op_delete_repo m rid in
-  all_safe img ws = true /\ (blob_writes ws <= 1)%nat /\ pinv_facts m' (apply_ws img ws).
-Proof.
-  intro F. unfold op_delete_repo.
-  destruct (aget rid (m_repos m)) as [r|] eqn:Er; [|cbn; auto].
-  destruct F as [H1 H2 H3 H4 H5 H6].
-  assert (Hw : wsafe img (WDelRepo rid) = true) by (unfold wsafe; now rewrite H4).
-  cbn [all_safe]. rewrite Hw. split; [reflexivity|]. split; [cbn; lia|].
-  constructor; cbn [m_repos m_r2u m_rid m_vid m_iid apply_ws fold_left apply_w i_ids i_repos]; auto.
-  - apply forallb_forall. intros x Hx. apply In_adel in Hx as [Hin Hne].
-    rewrite forallb_forall in H1. specialize (H1 _ Hin). apply andb_true_iff in H1 as [A B].
-    rewrite amem_adel_neq by exact Hne. now rewrite A, B.
-  - now apply all_lt_akeys_adel.
-  - exact (img_ok_apply img (WDelRepo rid) H3 Hw).
-  - now apply (forallb_adel_key (fun _ => true)).
-  - unfold r2u_of. cbn [i_r2u]. now apply forallb_adel.
-Qed.
+
 
 Lemma step_new_mutid C m img rid : pinv_facts m img ->
   let '(m', ws) := fst (op_new_mutid C m rid) in
@@ -736,6 +721,44 @@ Proof.
   - destruct w; try discriminate; cbn; auto.
   - destruct w; try discriminate; cbn; auto.
   - destruct w; try discriminate; unfold r2u_of; cbn; auto.
+Qed.
+
+Lemma step_delete_repo m img rid : pinv_facts m img ->
+  let '(m', ws) := op_delete_repo m rid in
+  all_safe img ws = true /\ (blob_writes ws <= 1)%nat /\ pinv_facts m' (apply_ws img ws).
+Proof.
+  intro F. unfold op_delete_repo.
+  destruct (aget rid (m_repos m)) as [r|] eqn:Er; [|cbn; auto].
+  destruct F as [H1 H2 H3 H4 H5 H6].
+  assert (Hw : wsafe img (WDelRepo rid) = true) by (unfold wsafe; now rewrite H4).
+  set (v2u := fold_left (fun acc v => adel v acc) (repo_versions r) (m_v2u m)).
+  set (m' := {| m_r2u := adel rid (m_r2u m); m_v2u := v2u; m_rid := m_rid m; m_vid := m_vid m; m_iid := m_iid m;
+                m_repos := adel rid (m_repos m); m_mut := adel rid (m_mut m); m_heads := adel rid (m_heads m) |}).
+  set (img1 := apply_w img (WDelRepo rid)).
+  (* the blob is gone; the stored id maps still name the repo *)
+  assert (F1 : pinv_facts m' img1).
+  { constructor; cbn [m' img1 m_repos m_r2u m_rid m_vid m_iid apply_w i_ids i_repos]; auto.
+    - apply forallb_forall. intros x Hx. apply In_adel in Hx as [Hin Hne].
+      rewrite forallb_forall in H1. specialize (H1 _ Hin). apply andb_true_iff in H1 as [A B].
+      rewrite amem_adel_neq by exact Hne. now rewrite A, B.
+    - now apply all_lt_akeys_adel.
+    - exact (img_ok_apply img (WDelRepo rid) H3 Hw).
+    - now apply (forallb_adel_key (fun _ => true)).
+    - unfold r2u_of. cbn [i_r2u]. now apply forallb_adel. }
+  (* putCaches: the id maps without the repo *)
+  destruct F1 as [G1 G2 G3 G4 G5 G6].
+  assert (Hw2 : wsafe img1 (WR2U (adel rid (m_r2u m))) = true).
+  { unfold wsafe. rewrite G4. apply andb_true_iff. split; [exact G5|exact G2]. }
+  set (img2 := apply_w img1 (WR2U (adel rid (m_r2u m)))).
+  assert (F2 : pinv_facts m' img2).
+  { constructor; auto.
+    - exact (img_ok_apply img1 _ G3 Hw2).
+    - unfold r2u_of, img2. cbn [apply_w i_r2u]. revert G1. apply forallb_impl.
+      intros ib _ H. apply andb_true_iff in H as [H _]. exact H. }
+  destruct (neutral_inv m' img2 (WV2U v2u) F2 eq_refl) as [Hw3 F3].
+  cbn [all_safe]. fold img1. rewrite Hw. fold img2. rewrite Hw2, Hw3.
+  split; [reflexivity|]. split; [cbn; lia|].
+  cbn [apply_ws fold_left]. exact F3.
 Qed.
 
 (* registering a new repo id (below the counter) in r2u and writing r2u *)
